@@ -253,7 +253,7 @@ func expect(t tree, c call) expectation {
 	val := func(ok bool, tr tree, v string) []outcome { return []outcome{{OK: ok, Tree: tr, Val: v, ValSpec: true}} }
 	switch c.Op {
 	case "WriteFile":
-		e.Dest = []string{a}
+		e.Dest = []string{firstMissing(t, a)}
 		if t.isDir(a) || trailing(c.A) || a == "" {
 			e.Conflict = true
 			break
@@ -444,6 +444,10 @@ func firstMissing(t tree, p string) string {
 
 func expectCopy(t tree, c call, a, b string, e *expectation) {
 	e.Dest = []string{firstMissing(t, b)}
+	if a == b && !t.exists(a) {
+		e.Unspecified = "copy of a missing path onto itself"
+		return
+	}
 	if !t.exists(a) {
 		if c.Op == "CopyToDirectory" {
 			e.Unspecified = "CopyToDirectory of a missing source (the destination directory may or may not have been created)"
@@ -543,6 +547,16 @@ func expectCopy(t tree, c call, a, b string, e *expectation) {
 		e.Unspecified = "copy whose resolved target lies inside the source"
 		return
 	}
+	if t.isDir(a) {
+		// merging into an existing directory: a file where a directory is needed (or the reverse) deeper down is a kind conflict too
+		for _, q := range t.below(a) {
+			tq := join(target, strings.TrimPrefix(q, a+"/"))
+			if t.exists(tq) && t.isDir(tq) != t.isDir(q) {
+				e.Conflict = true
+				return
+			}
+		}
+	}
 	needParents := !nt.isDir(parent(target))
 	nt2 := nt.clone()
 	nt2.mkdirAll(parent(target))
@@ -584,7 +598,12 @@ func expectMove(t tree, c call, a, b string, e *expectation) {
 		target = b
 	default:
 		if trailing(c.B) && t.isFile(a) {
-			e.Unspecified = "move of a file to a missing path written with a trailing separator"
+			// a file moved to a missing path written as a directory: mv refuses; the library (like its Copy) creates the directory and moves the file into it
+			nt := t.clone()
+			nt.mkdirAll(b)
+			nt[join(b, base(a))] = t[a]
+			nt.removeAll(a)
+			e.Outcomes = []outcome{{OK: false, Tree: t}, {OK: true, Tree: nt}}
 			return
 		}
 		target = b
